@@ -32,6 +32,14 @@ CHECKS.update({
         text=CONN_TEXT + "C08 oracle per protocol and peer: established/closed strictly alternate starting with established (also with two overlapping connections from simultaneous dials); substream events only while connected; open_substream returns Ok only while connected; outbound substream ids are never reused across the protocols of a node; every accepted open is answered at most once with the same id, and exactly once unless a connection to that peer ended, the connection was force-closed or the protocol exited.", ref="DESIGN.md §5 C08"),
 })
 
+NOTIF_TEXT = ("Seeded search over schedules, fault plans and user workloads with 2-3 complete litep2p nodes running a notification protocol (real NotificationProtocol, HandshakeService, per-stream Connection tasks, NotificationHandle/Sink, TransportService, TCP transport, Noise, yamux) on a simulated network and clock; every user command and every user-visible event goes into one totally ordered history examined at the horizon; a fault-free final phase resets the users and opens a canary stream between every pair. ")
+CHECKS.update({
+    "C11": dict(engine="nodesim", technique="deterministic simulation: seeded schedules + fault injection over whole litep2p nodes; per-peer event-grammar and response oracle, canary phase",
+        text=NOTIF_TEXT + "C11 oracle per (node, peer): opened/closed strictly alternate starting with opened; notifications only while open; no open-failure while open; an inbound stream opens only after the user accepted a validation, an outbound one only after a request or acceptance; no unsolicited open-failure; an open request issued while nothing is open, pending, under validation or being negotiated by the remote gets an answer; an open stream is reported closed once every connection to the peer ended; after the reset every pair can still open a stream (the protocol neither panicked, poisoned a peer nor stopped serving).", ref="DESIGN.md §5 C11"),
+    "C12": dict(engine="nodesim", technique="deterministic simulation: seeded schedules + fault injection over whole litep2p nodes; per-(sender, period, mode) sequence oracle",
+        text=NOTIF_TEXT + "C12 oracle: payloads carry (sender, sender's open period, mode, sequence number, deterministic padding); per (sender, mode) the receiver must see, for each period, the gap-free in-order prefix 0,1,2.. exactly once, periods in order; every delivered notification is byte-identical to one that was sent and not larger than the maximum; bursts exceed the sync/async channel sizes, readers stall, streams close and reopen mid-burst; an asynchronous send that stays stuck for 40 s while the stream is open and the receiver reads is a violation.", ref="DESIGN.md §5 C12"),
+})
+
 NOT_BUILT = {
 }
 
